@@ -9,8 +9,8 @@ EXPLANATION = ('Kernels of the fixed-sampling routines are read off symbolic run
                'shift are symbols). Metamorphic obligations on the kernels: embedding in a larger zero-padded array leaves the output '
                'unchanged; transposing the input and the per-axis arguments transposes the output; an all-pass mask over the complete '
                'band returns the field; masks combine additively and Babinet holds.')
-BOUNDS = {'quick': 'shapes (m,n) in {1..3}^2, embeddings up to +2 samples per axis, outputs (M,N) in {2,3}^2; masks up to 3x3; both methods (czt on a subset)',
-          'thorough': 'shapes up to 4x4, embeddings up to +3, outputs up to 4x4; masks up to 4x4'}
+BOUNDS = {'quick': 'shapes (m,n) in {1..3}^2, embeddings up to +2 samples per axis, outputs (M,N) in {2,3}^2; masks up to 3x3; both methods (czt on a subset); storage type (real vs complex input) on 2x3 for both engines and directions',
+          'thorough': 'shapes up to 4x4, embeddings up to +3, outputs up to 4x4; masks up to 4x4; storage type on 3 shapes'}
 OUTSIDE = 'shapes beyond the bound; float rounding'
 NDERIVED = 16
 MAX_PATHS = 16
